@@ -181,7 +181,7 @@ elab "epv_deton_sqrt_rw " y:term : tactic => withMainContext do
   let some e := g.find? (fun e => isSqrt e && !e.hasLooseBVars && ((e.getArg! 0).find? isSqrt).isNone)
     | throwError "epv_deton_sqrt_rw: no innermost Real.sqrt in the goal"
   let arg ← Term.exprToSyntax (e.getArg! 0)
-  -- (tactic-level `have` without a value: a failure inside must FAIL, not be recovered to `sorry`)
+  -- (tactic-level `have` without a value: a failure inside must FAIL instead of being recovered by error recovery)
   evalTactic (← `(tactic|
     (have hsq : Real.sqrt ($arg) = $y
      · have harg : ($arg) = ($y) ^ 2
@@ -253,3 +253,28 @@ elab "epv_deton_rpow_half_to " y:term:max " (" tac:tacticSeq ")" : tactic => wit
        · first | assumption | linarith | positivity
        · ($tac)
      rw [hval]; clear hval)))
+
+/-- `epv_deton_ctx_lt h : a < b`: find a hypothesis `a' < b'` of the context (a path condition in whatever writing the
+traced code gives it) with `a' = a` and `b' = b` up to ring normalisation (resp. field normalisation with the sign
+facts of the context), and add it as `h : a < b` in the DOCUMENTED writing.  Shape-independent replacement for
+`‹0 < p.lame_mod * (1 - 2 * p.poisson_ratio) / (2 * p.poisson_ratio)›`. -/
+elab "epv_deton_ctx_lt " h:ident " : " a:term:51 " < " b:term:51 : tactic => withMainContext do
+  let lctx ← getLCtx
+  let mut alts : Array (TSyntax ``Lean.Parser.Tactic.tacticSeq) := #[]
+  for d in lctx do
+    if d.isImplementationDetail then continue
+    let ty ← instantiateMVars d.type
+    if ty.isAppOfArity ``LT.lt 4 then
+      let a' ← Term.exprToSyntax (ty.getArg! 2)
+      let b' ← Term.exprToSyntax (ty.getArg! 3)
+      let H ← Term.exprToSyntax (mkFVar d.fvarId)
+      alts := alts.push (← `(tacticSeq|
+        (have $h:ident : $a < $b
+         · have e1 : ($a') = $a
+           · first | rfl | ring1 | (field_simp (disch := epv_deton_ne); first | done | ring1)
+           have e2 : ($b') = $b
+           · first | rfl | ring1 | (field_simp (disch := epv_deton_ne); first | done | ring1)
+           rw [← e1, ← e2]; exact $H)))
+  let alts' := alts.reverse
+  let failTac ← `(tacticSeq| fail "epv_deton_ctx_lt: no hypothesis of the context says this")
+  evalTactic (← `(tactic| first $[| $alts']* | $failTac))
